@@ -192,7 +192,8 @@ def run_spec(spec):
 # --------------------------------------------------------------------------- oracle
 
 ZOMBIE_KIND = {
-    'busy': 'mortal-silent', 'busy-pass': 'mortal-silent', 'sleep-loop': 'mortal-silent', 'import-loop': 'mortal-silent',
+    'busy': 'mortal-silent', 'busy-pass': 'mortal-silent', 'sleep-loop': 'mortal-silent',
+    'import-loop': 'mortal-printing',      # the imported file prints once before it loops (possibly late, from its own nested thread)
     'call-spin': 'mortal-silent', 'eval-spin': 'mortal-silent', 'slow-finishing': 'mortal-silent',
     'swallow-once-then-finish': 'mortal-silent',
     'print-loop': 'mortal-printing', 'finally-print': 'mortal-printing', 'input-loop': 'mortal-reading',
